@@ -15,3 +15,35 @@ package poly1305
 //@ note Poly1305 tag of m under key: not verified; assumed to write only *out
 //@ nonnil out key
 //@ modifies *out
+
+// The incremental MAC: the bytes written so far are recorded in the ghost
+// stream (hlen, hbuf) of the MAC object; what Sum/Verify compute from them
+// is not interpreted.
+//@ func New
+//@ trusted
+//@ nonnil key
+//@ fresh result
+//@ ensures result != nil && ghost(result, hlen) == 0
+
+//@ func (*MAC).Write
+//@ trusted
+//@ note appends p to the authenticated stream; never fails
+//@ modifies ghost(h, hlen)
+//@ modifies ghost(h, hbuf)
+//@ ensures n == len(p) && err == nil
+//@ ensures ghost(h, hlen) == old(ghost(h, hlen)) + len(p)
+//@ ensures forall(q, old(ghost(h, hlen)), old(ghost(h, hlen)) + len(p), ghost(h, hbuf)[q] == p[q - old(ghost(h, hlen))])
+//@ ensures forall(q, 0, old(ghost(h, hlen)), ghost(h, hbuf)[q] == old(ghost(h, hbuf)[q]))
+
+//@ func (*MAC).Sum
+//@ trusted
+//@ note appends the 16-byte tag to b (in place when the capacity allows)
+//@ modifies b[len(b):len(b)+16]
+//@ ensures len(result) == len(b) + 16
+//@ ensures implies(cap(b) - len(b) >= 16, sameobj(result, b) && off(result) == off(b))
+//@ ensures implies(cap(b) - len(b) < 16, newobj(result) && sameoutside(b[len(b):len(b)]))
+
+//@ func (*MAC).Verify
+//@ trusted
+//@ note constant-time comparison of the tag of the stream written so far with expected
+//@ pure
